@@ -8,6 +8,11 @@ structure BkState where
   srv : Server := init {}
   order : List Nat := []        -- connection numbers in creation order
   closedSeen : List Nat := []   -- connections already reported closed
+  -- C12 oracle bookkeeping (history of the REAL broker's deliveries; never used by the model)
+  pubs : List (String × Str × Str × Nat) := []            -- payload hex ↦ (origin id, topic, publish number)
+  pubSeq : Nat := 0
+  firstSeen : List (Str × String) := []                   -- (receiver id, payload hex): already transmitted once
+  lastFirst : List ((Str × Str × Str × String) × Nat × String) := []  -- (receiver, origin, topic, qos) ↦ latest first transmission
 
 def kvGet (args : List String) (k : String) : Option String :=
   args.findSome? fun a =>
@@ -136,13 +141,21 @@ def stepSearch (st : BkState) (op : Op) (impl : String) (sortTail : Option Nat) 
   let d := run (0, 0, 0, 0)
   if d.2 == impl then d else
   let perms := permCandidates st op
+  -- `nextSeed` picks which deferred message is released: one candidate per deferred message of the
+  -- client with the most of them (at least the five of the original search)
+  let nDef := st.srv.objs.foldl (fun m c => max m (c.inflight.filter (fun x => x.expiry < 0)).length) 0
+  let nsN := max 5 nDef
   let cands : List (Nat × Nat × Nat × Nat) :=
     if perms.length > 1 then
       (perms.map fun ps => (ps, 0, 0, 0)) ++
-      (if perms.length ≤ 720 then (List.range 5).flatMap fun ns => perms.map fun ps => (ps, 0, 0, ns + 1) else [])
+      (if perms.length ≤ 720 then (List.range nsN).flatMap fun ns => perms.map fun ps => (ps, 0, 0, ns + 1) else [])
     else
+      -- deferred releases first (cheap, and the only choice in histories without share groups):
+      -- one pick, then two independent picks (the packet and the barrier PINGREQ)
+      ((List.range nsN).map fun ns => (0, 0, 0, ns + 1)) ++
+      ((List.range nsN).flatMap fun b => (List.range nsN).map fun a => (0, 0, 0, a + 64 * b)) ++
       ((List.range 27).flatMap fun pk => (List.range 6).map fun os => (0, pk, os, 0)) ++
-      ((List.range 5).flatMap fun ns => (List.range 27).flatMap fun pk => (List.range 6).map fun os => (0, pk, os, ns + 1))
+      ((List.range nsN).flatMap fun ns => (List.range 27).flatMap fun pk => (List.range 6).map fun os => (0, pk, os, ns + 1))
   match cands.find? (fun c => (run c).2 == impl) with
   | some c => run c
   | none => d
